@@ -1,9 +1,105 @@
 (* C12 property theorems: statements + `exact lemma` only. *)
 From CJ Require Import Common.Base C12.Model C12.Proofs.
 
-Theorem C12_same_view : forall cfg q ca m e rs w,
+(* For every request, configuration, selection result and random choice: the response returned
+   to the client IS the response attached to the forwarded message (and, when the registrar
+   signs, the signed copy); payload and secret are forwarded unchanged. *)
+Theorem C12_client_view_eq_station_view : forall cfg q ca m e rs w,
   register_bd cfg q ca m e = Ok (rs, w) ->
   f_resp w = Some rs /\ (c_auth cfg = true -> f_signed w = Some rs) /\
+  (c_auth cfg = false -> f_signed w = None) /\
   f_payload w = q_payload q /\ f_secret w = q_secret q.
 Proof. exact same_view. Qed.
-Print Assumptions C12_same_view.
+Print Assumptions C12_client_view_eq_station_view.
+
+(* A station ingesting that message ends up, for every registration it creates, with exactly the
+   port, phantom and (effective) parameters of the response the client got. *)
+Theorem C12_station_applies : forall cfg q ca m e rs w c sc svs sv,
+  register_bd cfg q ca m e = Ok (rs, w) -> q_payload q = Some c ->
+  station sc w = Some svs -> In sv svs ->
+  (exists port, r_port rs = Some port /\ sv_port sv = port mod 65536) /\
+  (sv_v6 sv = true -> r_v6 rs = Some (sv_phantom sv)) /\
+  (sv_v6 sv = false -> exists a, r_v4 rs = Some a /\ (a <> 0 -> sv_phantom sv = be4 a)) /\
+  (exists own own_port, st_new_reg sc (sv_v6 sv) (effective_params c (Some rs)) = Some (own, own_port, sv_params sv)).
+Proof. exact station_applies. Qed.
+Print Assumptions C12_station_applies.
+
+(* Response / signature fields supplied by the client have no influence on anything. *)
+Theorem C12_forged_fields_discarded : forall cfg q ca m e,
+  register_bd cfg q ca m e = register_bd cfg (clear_forged q) ca m e /\
+  register_uni cfg q ca m = register_uni cfg (clear_forged q) ca m.
+Proof. exact (fun cfg q ca m e => conj (forged_fields_discarded_bd cfg q ca m e) (forged_fields_discarded_uni cfg q ca m)). Qed.
+Print Assumptions C12_forged_fields_discarded.
+
+Theorem C12_uni_forwards_no_response : forall cfg q ca m w,
+  register_uni cfg q ca m = Ok w -> f_resp w = None /\ f_signed w = None.
+Proof. exact uni_forwards_no_response. Qed.
+Print Assumptions C12_uni_forwards_no_response.
+
+(* Parameter overrides only when the client has not disabled them: registrar side ... *)
+Theorem C12_overrides_only_if_allowed : forall cfg q ca m e rs w c,
+  register_bd cfg q ca m e = Ok (rs, w) -> q_payload q = Some c -> p_disable_ov c = true ->
+  r_params rs = None.
+Proof. exact overrides_only_if_allowed. Qed.
+Print Assumptions C12_overrides_only_if_allowed.
+
+(* ... and station side, for ANY forwarded message. *)
+Theorem C12_station_respects_disable : forall sc f c svs sv,
+  station sc f = Some svs -> In sv svs -> f_payload f = Some c -> p_disable_ov c = true ->
+  exists own own_port, st_new_reg sc (sv_v6 sv) (p_params c) = Some (own, own_port, sv_params sv).
+Proof. exact station_respects_disable. Qed.
+Print Assumptions C12_station_respects_disable.
+
+(* The IPv4 phantom in the response is either the selected one or lies inside an override
+   subnet with positive weight configured for the request's transport. *)
+Theorem C12_override_inside_configured_subnet : forall cfg q ca m e rs w c a,
+  wf_cfg cfg = true ->
+  register_bd cfg q ca m e = Ok (rs, w) -> q_payload q = Some c -> r_v4 rs = Some a ->
+  (p_v4 c = true /\ exists rnd, e_sel4 e = Some (a, rnd)) \/
+  (c_enforce cfg = true /\
+   exists s, In s (subnets_for cfg (p_transport c)) /\ 0 < s_weight s /\ in_subnet s a).
+Proof. exact override_inside_configured_subnet. Qed.
+Print Assumptions C12_override_inside_configured_subnet.
+
+(* A selected phantom inside an excluded subnet is never replaced (nothing of the response is). *)
+Theorem C12_excluded_never_replaced : forall cfg q ca m e rs w c a rnd,
+  register_bd cfg q ca m e = Ok (rs, w) -> q_payload q = Some c ->
+  p_v4 c = true -> e_sel4 e = Some (a, rnd) -> excluded cfg (Some a) = true ->
+  r_v4 rs = Some a /\ base_response cfg c e = Ok rs.
+Proof. exact excluded_never_replaced. Qed.
+Print Assumptions C12_excluded_never_replaced.
+
+(* Every override subnet with a positive weight is chosen for some draw in [0,1) ... *)
+Theorem C12_every_positive_weight_reachable : forall l i s,
+  nth_error l i = Some s -> 0 < s_weight s ->
+  exists fnum fden, fnum < fden /\ choose fnum fden l = Some (i, s).
+Proof. exact every_positive_weight_reachable. Qed.
+Print Assumptions C12_every_positive_weight_reachable.
+
+(* ... and, for the whole request, some random choices make the registrar substitute an address
+   of that subnet (Min transport; Prefix transport). *)
+Theorem C12_reachable_min : forall cfg q c e r i s,
+  wf_cfg cfg = true -> q_payload q = Some c -> p_transport c = transport_min ->
+  c_enforce cfg = true -> 0 < c_rmin cfg ->
+  base_response cfg c e = Ok r -> excluded cfg (r_v4 r) = false ->
+  nth_error (c_min_subnets cfg) i = Some s -> 0 < s_weight s ->
+  exists fnum fden, fnum < fden /\
+    process_bd_req cfg q (set_random e zero_chunks fnum fden) =
+      Ok (mkResp (Some (s_base s)) (r_v6 r) (r_port r) (r_params r)) /\
+    in_subnet s (s_base s).
+Proof. exact reachable_min. Qed.
+Print Assumptions C12_reachable_min.
+
+Theorem C12_reachable_prefix : forall cfg q c e r i s sp,
+  wf_cfg cfg = true -> q_payload q = Some c -> p_transport c = transport_prefix ->
+  p_disable_ov c = false ->
+  c_enforce cfg = true -> 0 < c_rprefix cfg ->
+  base_response cfg c e = Ok r -> excluded cfg (r_v4 r) = false ->
+  nth_error (c_prefix_subnets cfg) i = Some s -> 0 < s_weight s ->
+  nth i (e_subnet_params e) None = Some sp ->
+  exists fnum fden, fnum < fden /\
+    process_bd_req cfg q (set_random e zero_chunks fnum fden) =
+      Ok (mkResp (Some (s_base s)) (r_v6 r) (Some (s_port s)) (Some sp)) /\
+    in_subnet s (s_base s).
+Proof. exact reachable_prefix. Qed.
+Print Assumptions C12_reachable_prefix.
